@@ -237,20 +237,32 @@ def main():
     if not a.no_kani:
         try:
             import cex as cexmod
+            todo = []       # (group, reason)
             for name in P['units']:
                 r, vac, err = unit_results[name]
-                if not (err or (r is not None and r.undecided)) and tier != 'thorough':
+                und = bool(err or (r is not None and r.undecided))
+                if not und and tier != 'thorough':
                     continue
                 for g in cexmod.groups_for_unit(name):
-                    res = cexmod.run_group(g)
-                    gname = os.path.basename(g['file'])
-                    bounded.append(dict(harness='cex/' + gname, bound='small input grid, see the file', status='failed' if res['found'] else 'no failing input',
-                                        reason=('unit %s undecided by Verus' % name) if (err or (r is not None and r.undecided)) else 'thorough tier: executable contract clauses on the real crate'))
-                    if res['found']:
-                        fl = verusrun.Failure('bounded.%s' % gname[:-3], 'bounded', 'bounded stand-in found a failing input on the real code (unit %s)' % name,
-                                              '', res['text'], gname)
-                        bounded_found.append(fl)
-                        violations.append((fl, None, True))
+                    todo.append((g, ('unit %s undecided by Verus' % name) if und else 'thorough tier: executable contract clauses on the real crate', name))
+            # oracles that stand in, on every run, for functions of this property that are outside the verifier's reach
+            for gname, why in P.get('bounded_quick', []):
+                g = next((g for g in cexmod._groups() if os.path.basename(g['file']) == gname + '.rs'), None)
+                if g is not None:
+                    todo.append((g, 'stands in for functions outside the verifier\'s reach: ' + why, '-'))
+            seen = set()
+            for g, reason, name in todo:
+                gname = os.path.basename(g['file'])
+                if gname in seen:
+                    continue
+                seen.add(gname)
+                res = cexmod.run_group(g)
+                bounded.append(dict(harness='cex/' + gname, bound='small input grid, see the file', status='failed' if res['found'] else 'no failing input', reason=reason))
+                if res['found']:
+                    fl = verusrun.Failure('bounded.%s' % gname[:-3], 'bounded', 'bounded stand-in found a failing input on the real code (%s)' % reason[:80],
+                                          '', res['text'], gname)
+                    bounded_found.append(fl)
+                    violations.append((fl, None, True))
         except Exception as e:
             undecided.append('bounded stand-in: %s' % e)
     if kres:
